@@ -23,8 +23,7 @@ for name, params in (("quantise", {"step_sizes": "list:int?"}), ("quantise_note_
              requires=[WF_ABS()], modifies={"@lists": M, "time": M}, ensures=[("wf", WF_ABS())], props=["C04", "C16"])
 contract("AbsoluteSequence.merge", params={"self": "ref:AbsoluteSequence", "sequences": "list:ref:AbsoluteSequence"}, trusted=True, note=NOTE_A, allocates=True,
          requires=[WF_ABS()], modifies={"@lists": M}, ensures=[("wf", WF_ABS())], props=["C04"])
-contract("RelativeSequence.normalise_relative", params={"self": "ref:RelativeSequence"}, trusted=True, note=NOTE_A, allocates=True,
-         requires=[WF_REL()], modifies={"_messages": "self"}, ensures=[("wf", WF_REL() + f" and fresh({M})")], props=["C04", "C16"])
+# RelativeSequence.normalise_relative: verified contract in contracts/relative.py (no longer assumed)
 contract("RelativeSequence.concatenate", params={"self": "ref:RelativeSequence", "sequences": "list:ref:RelativeSequence"}, trusted=True, allocates=True,
          note=NOTE_A + "; NB the real code shares the other sequences' message objects (known finding D8)",
          requires=[WF_REL()], modifies={"@lists": M}, ensures=[("wf", WF_REL())], props=["C04"])
